@@ -188,7 +188,10 @@ func checkC04(c *core.Ctx, l *core.Ledger) {
 	} else {
 		a1, _ := classifyArms(dr, 1)
 		a2, _ := classifyArms(rr, 0)
-		l.Check(strings.Join(a1, "\n") == strings.Join(a2, "\n") && len(a1) >= 3, "SIB-REQUEST", "DecodeRequest/ReadRequest", c.Rel(rr.Pos()), fmt.Sprintf("%d identical (framing test => responder) arms", len(a1)), "request decoders classify differently:\n  "+strings.Join(a1, " || ")+"\n  "+strings.Join(a2, " || "))
+		t1, u1 := armTable(a1)
+		t2, u2 := armTable(a2)
+		ds := compareArmTables(t1, t2)
+		l.Check(len(ds) == 0 && len(u1) == 0 && len(u2) == 0 && len(a1) >= 3, "SIB-REQUEST", "DecodeRequest/ReadRequest", c.Rel(rr.Pos()), "for every first byte and number of available bytes both request decoders select the same responder (conditions evaluated, not compared as text)", "request decoders classify differently: "+strings.Join(append(append(ds, u1...), u2...), "; "))
 	}
 
 	// FULL-READ
